@@ -438,3 +438,30 @@ theorem SourceTie_C04_bypass (c : GscribModel.Transform.Core) (b : B) (rapid : B
       = ⟨m.pos.replace req, c.rel⟩ := by
   rw [(MotionTie_goabs_xf c b rapid req h hax hrel hsync hh hb).2.2, xfLineExec_run]
   exact C04_bypass_machine c m rapid req hm
+
+/-! ## C04: `set_axis`, and non-vacuity of the premises -/
+open GscribModel.MotionTie GscribModel.PointTie in
+/-- **C04 (`set_axis`) for the translated source**: the text-reading controller that executes what the translated `set_axis()` wrote has
+    its coordinates renamed to the raw request (no transform applied), distance mode untouched; the builder tracks the raw request. -/
+theorem SourceTie_C04_setaxis (c : GscribModel.Transform.Core) (b : B) (req : GscribModel.Transform.Pt) (h : Rat)
+    (hax : b.axes = ofT c.axes) (hb : b.bounds.axes = none) (m : GscribModel.Transform.Machine) :
+    let g := GCodeBuilder.set_axis (absB b) (ofT req) [] h
+    g.2 = none ∧ g.1._current_axes = ofT (GscribModel.Transform.Pt.replace c.axes req) ∧
+    (g.1.out.map conv).foldl xfLineExec m = ⟨m.pos.replace req, m.rel⟩ := by
+  obtain ⟨g1, g2, g3⟩ := MotionTie_setaxis_xf c b req h hax hb
+  obtain ⟨w1, w2, _, _⟩ := C04_setaxis_machine c m req
+  refine ⟨g1, by rw [g2, w2], ?_⟩
+  rw [g3, xfLineExec_run]
+  exact w1
+
+open GscribModel.MotionTie GscribModel.PointTie in
+/-- the premises of `SourceTie_C04_machine` / `_bypass` / `_setaxis` are met by a concrete rotated builder in relative mode -/
+example : let c := C04_exC true
+    let b : B := { axes := ofT c.axes, rel := c.rel, srel := c.rel }
+    b.axes = ofT c.axes ∧ b.rel = c.rel ∧ b.srel = b.rel ∧ b.hooks = [] ∧ b.bounds.axes = none := ⟨rfl, rfl, rfl, rfl, rfl⟩
+
+open GscribModel.MotionTie in
+/-- and on it the text-reading controller really moves: the view of the model's statement for `move(x=2)` takes it off its position -/
+example : let c := C04_exC true
+    let m : GscribModel.Transform.Machine := ⟨c.A.apply c.axes.resolve, c.rel⟩
+    (((c.go false ⟨some 2, none, none⟩).2.map stmtView).foldl xfLineExec m).pos ≠ m.pos := by decide +kernel
